@@ -150,8 +150,15 @@ var baseGoroutines = 0
 // prunes those nodes it panics ("Value missing for hash"). The simulator does not own that
 // schedule, so it lets those goroutines drain between calls (observation O2 in DESIGN.md).
 func quiesce() {
-	for i := 0; i < 20000 && runtime.NumGoroutine() > baseGoroutines; i++ {
+	// wait until the number of goroutines is back at the run's baseline, or has stopped falling
+	stable, prev := 0, runtime.NumGoroutine()
+	for i := 0; i < 50000 && prev > baseGoroutines && stable < 300; i++ {
 		runtime.Gosched()
+		if n := runtime.NumGoroutine(); n < prev {
+			prev, stable = n, 0
+		} else {
+			stable++
+		}
 	}
 }
 
